@@ -155,6 +155,8 @@ def do_replay(prop: str, path: str) -> int:
         a, w = case["older"], case["newer"]
         ia, ib = gw.run_impl_many([gw.Hist(a, h.metric, h.preload, h.ops), gw.Hist(w, h.metric, h.preload, h.ops)])
         view = gprops._c19_forget_sleeping if w == "2.2" and a in ("2.0", "2.1") and case.get("sleeping_flag_excepted") else None
+        if case.get("stated_observables_only"):
+            view = gprops._c19_stated_only
         first, cut, why = gprops._c19_judge(a, w, h.ops, ia, ib, view)
         for i, op in enumerate(h.ops):
             print(f"step {i + 1}: {op}")
@@ -163,7 +165,7 @@ def do_replay(prop: str, path: str) -> int:
                 print(f"   registry before ({a}): " + ", ".join(f"{k}:{sorted(v['children'])}" for k, v in ia[i]["nodes"].items())
                       + ("   -> inside the domain" if out is None else f"   -> OUTSIDE the domain: {out}"))
             for v, o in ((a, ia[i + 1]), (w, ib[i + 1])):
-                print(f"   {v:>4}: {o['out']}  writes={[x for x in o['writes']]}  ibuf={o['ibuf']}")
+                print(f"   {v:>4}: {o['out']}  writes={[x for x in o['writes']]}  ibuf={o['ibuf']}  sbuf={o['sbuf']}")
             if gprops._c19_obs(ia[i + 1]) != gprops._c19_obs(ib[i + 1]):
                 print("   DIFFERENT" + (" (outside the judged part)" if cut is not None and i >= cut else ""))
         print(f"final state ({a}):", ia[-1]["state"])
